@@ -1,4 +1,5 @@
 import MimeModel.Props.C03
+import MimeModel.Lemmas.DetectTie
 import MimeModel.Spec.All
 import MimeModel.Gen.Tree
 /-
@@ -134,5 +135,8 @@ theorem textual_is_specific (ext : Ext) (x : Bytes) (lim : Nat)
 example : (startsWithBOM [] || noBinary []) = true ∧
     (startsWithBOM [0xFF, 0xFE, 0, 0] || noBinary [0xFF, 0xFE, 0, 0]) = true ∧
     (startsWithBOM [0] || noBinary [0]) = false := by decide
+
+/-- regenerated tie: `Detect` / `DetectReader` load the limit once, atomically (see Lemmas/DetectTie.lean) -/
+theorem tie_single_limit : Mime.DetectTie.SingleLimit := Mime.DetectTie.single_limit
 
 end Mime.C07
